@@ -1264,7 +1264,7 @@ class PDAG(nx.DiGraph):
         # Add all the nodes and the directed edges
         dag.add_nodes_from(self.nodes())
         dag.add_edges_from(self.directed_edges)
-        dag.latents = self.latents
+        dag.latents = set(self.latents)
 
         pdag = self.copy()
         while pdag.number_of_nodes() > 0:
